@@ -123,7 +123,17 @@ class ScriptTransport(BaseTransport, scheme="sim"):
 
     async def write(self, data: bytes, timeout: float | None = None, tags: Any = None) -> int:
         self.world.rec.rec("write", conn=self.index, data=bytes(data))
-        self.world.on_write(self, bytes(data))
+        stall = self.world.on_write(self, bytes(data))
+        if stall:
+            # the peer takes the bytes only after `stall` seconds (flow control, a gateway's acknowledgement): like a real
+            # transport the write waits for that, bounded by the caller's timeout
+            self.world.rec.rec("write_stalled", conn=self.index, timeout=timeout)
+            try:
+                await asyncio.wait_for(asyncio.sleep(stall), timeout)
+            except TimeoutError:
+                self.world.rec.rec("write_timeout", conn=self.index)
+                raise
+            self.world.on_write_done(self)
         return len(data)
 
     async def read(self, timeout: float | None = None, tags: Any = None) -> bytes:
